@@ -27,13 +27,14 @@ import (
    came from and the exactly-once / order check is linear. */
 
 type layout struct {
-	Ordered bool     `json:"ordered"`
-	Sizes   []int    `json:"sizes"`            // Sizes[0] = root, then pages
-	Broken  int      `json:"broken,omitempty"` // index (>=1) of the page that fails to load, 0 = none
-	BrokenK string   `json:"broken_kind,omitempty"`
-	NoItems []bool   `json:"no_items_key,omitempty"` // page has no items key at all (vs. empty list)
-	Single  []bool   `json:"single,omitempty"`       // one-element page written as a bare value instead of a list
-	Decoys  bool     `json:"decoys,omitempty"`       // first/prev/partOf on pages, next/last/current on the root
+	Ordered bool   `json:"ordered"`
+	Sizes   []int  `json:"sizes"`            // Sizes[0] = root, then pages
+	Broken  int    `json:"broken,omitempty"` // index (>=1) of the page that fails to load, 0 = none
+	BrokenK string `json:"broken_kind,omitempty"`
+	NoItems []bool `json:"no_items_key,omitempty"` // page has no items key at all (vs. empty list)
+	Single  []bool `json:"single,omitempty"`       // one-element page written as a bare value instead of a list
+	Decoys  bool   `json:"decoys,omitempty"`       // first/prev/partOf on pages, next/last/current on the root
+	Nulls   bool   `json:"nulls,omitempty"`        // members that would be left out are written as JSON null instead (same meaning)
 }
 
 func (l layout) tag(p, i int) string { return fmt.Sprintf("e-%d-%d", p, i) }
@@ -74,6 +75,9 @@ func (l layout) page(p int) any {
 	}
 	if n == 0 && p < len(l.NoItems) && l.NoItems[p] {
 		// no items key
+		if l.Nulls {
+			m[itemsKey] = nil
+		}
 	} else if n == 1 && p < len(l.Single) && l.Single[p] {
 		m[itemsKey] = items[0]
 	} else {
@@ -82,6 +86,9 @@ func (l layout) page(p int) any {
 	m["totalItems"] = float64(len(l.Sizes) * 3)
 	if p+1 < len(l.Sizes) {
 		m[nextKey] = l.page(p + 1)
+	} else if l.Nulls {
+		m[nextKey] = nil
+		m["prev"], m["partOf"] = nil, nil
 	}
 	// navigation links that are valid ActivityStreams but are not the successor: pages point back to the first page, to their
 	// predecessor and to the collection; the root names its last page. None of them may be followed.
@@ -371,10 +378,12 @@ func TestVerifC10(t *testing.T) {
 /* ---------- remote and cyclic chains through the TLS simulator ---------- */
 
 type remoteLayout struct {
-	Sizes   []int  `json:"sizes"`     // root, then pages
-	Tail    string `json:"tail"`      // "" end | "cycle:<k>" next of the last page points back to page k | "404" | "forged" (page served under another id) | "self"
-	Ordered bool   `json:"ordered"`
-	Reqs    []int  `json:"request_sizes"`
+	Sizes     []int  `json:"sizes"` // root, then pages
+	Tail      string `json:"tail"`  // "" end | "cycle:<k>" next of the last page points back to page k | "404" | "forged" (page served under another id) | "self"
+	Ordered   bool   `json:"ordered"`
+	Reqs      []int  `json:"request_sizes"`
+	CaseTwins bool   `json:"case_twins,omitempty"` // page addresses differ only in letter case
+	Nulls     bool   `json:"nulls,omitempty"`      // the last page says "next": null instead of leaving it out
 }
 
 func remoteCase(c *ev.Ctx, s *sim.Sim, r *rand.Rand, n int) {
@@ -409,9 +418,21 @@ func remoteCase(c *ev.Ctx, s *sim.Sim, r *rand.Rand, n int) {
 	w := world.New(r, []string{s.Host(2), s.Host(3)})
 	w.Stamp = false
 	base := fmt.Sprintf("https://%s/c10/%d-%d-%d", s.Host(2), c.R.Shard, n, r.Intn(1<<30))
+	l.CaseTwins, l.Nulls = r.Intn(4) == 0, r.Intn(4) == 0
 	addr := func(p int) string {
 		if p == 0 {
 			return base
+		}
+		if l.CaseTwins {
+			// cursors that differ from their neighbours only in the case of a letter: distinct addresses all the same
+			a, b := 'q'+rune((p-1)/4%8), 'j'+rune((p-1)/32%8)
+			if (p-1)%2 == 1 {
+				a -= 32
+			}
+			if (p-1)/2%2 == 1 {
+				b -= 32
+			}
+			return fmt.Sprintf("%s?cursor=%c%c", base, a, b)
 		}
 		return fmt.Sprintf("%s?page=%d", base, p)
 	}
@@ -453,6 +474,8 @@ func remoteCase(c *ev.Ctx, s *sim.Sim, r *rand.Rand, n int) {
 				doc[nextKey] = base + "/missing"
 			case l.Tail == "self":
 				doc[nextKey] = addr(p)
+			case l.Tail == "" && l.Nulls:
+				doc[nextKey] = nil
 			case l.Tail == "forged":
 				forged := fmt.Sprintf("https://%s/c10-forged/%d-%d", s.Host(3), n, r.Intn(1<<30))
 				// the forged page claims an id on the collection's host that does not exist there: the re-fetch fails
@@ -603,6 +626,7 @@ func randomCase(r *rand.Rand) caseDesc {
 			l.Sizes[p] = 1 + r.Intn(7)
 		}
 		l.NoItems[p] = r.Intn(2) == 0
+		l.Nulls = l.Nulls || r.Intn(4*np) == 0
 		l.Single[p] = r.Intn(3) == 0
 	}
 	if r.Intn(3) == 0 {
